@@ -243,6 +243,16 @@ def miri_ack_extra(prop, tier, seed, target, env):
     return _miri(prop, seed, jobs, "miri-ack", env, 3000)
 
 
+def miri_ack_quick_extra(prop, tier, seed, target, env):
+    """Quick-tier slice: the 480-variant phase sweep once, at one interpreter seed, split over 16 processes."""
+    jobs = []
+    miri_seed = seed % 64
+    for i in range(16):
+        flags = "-Zmiri-seed=%d -Zmiri-preemption-rate=0.2 -Zmiri-ignore-leaks" % miri_seed
+        jobs.append((flags, ["comp", "--scenario", "c12-miri", "--focus", prop, "--from", str(30 * i), "--count", "30"]))
+    return _miri(prop, seed, jobs, "miri-ack", env, 900)
+
+
 def miri_cache_extra(prop, tier, seed, target, env):
     jobs = []
     for i in range(16):
